@@ -170,6 +170,49 @@ class Family:
                         out.add("?")
         return out
 
+    def struct_format(self, key, f, e, _depth: int = 0):
+        """If `e` denotes a precompiled struct.Struct object: its format (str), or "computed" when the format is not a constant; else None.
+        Recognised: a class attribute reached through self / cls / the class name, a module-level name, a local - bound to struct.Struct(<fmt>)."""
+        if _depth > 4:
+            return None
+        cname = key[0]
+        val = owner = None
+        if isinstance(e, ast.Call) and call_name(e) in ("struct.Struct", "Struct") and len(e.args) == 1:
+            val, owner = e, self.classes.get(cname)
+        elif isinstance(e, ast.Attribute) and isinstance(e.value, ast.Name):
+            c = None
+            if f is not None and f.args.args and e.value.id == f.args.args[0].arg and cname:
+                c = self.classes.get(cname)
+            elif e.value.id in self.classes:
+                c = self.classes[e.value.id]
+            if c is not None:
+                r = mro_lookup(self.mod, c, e.attr)
+                if r is not None and isinstance(r[1], ast.expr):
+                    owner, val = r
+        elif isinstance(e, ast.Name):
+            if f is not None:
+                d = single_defs(f).get(e.id)
+                if d is not None:
+                    return self.struct_format(key, f, d, _depth + 1)
+            try:
+                d = self.mod.module_assign(e.id)
+            except Exception:
+                d = None
+            if isinstance(d, ast.expr):
+                val, owner = d, None
+        if not (isinstance(val, ast.Call) and call_name(val) in ("struct.Struct", "Struct") and len(val.args) == 1):
+            return None
+        a = val.args[0]
+        fmt = None
+        if owner is not None and isinstance(a, ast.Name):
+            fmt = class_const(self.mod, owner, a.id, self.consts)
+        if fmt is None:
+            try:
+                fmt = const_eval(a, self.consts)
+            except NotConst:
+                fmt = None
+        return fmt if isinstance(fmt, str) else "computed"
+
     @staticmethod
     def _getattr_names(f: ast.FunctionDef, recv) -> Optional[List[str]]:
         """Attribute names of  getattr(self, <name>)  when they are known: a string literal, or a loop variable over a literal tuple/list of
@@ -254,6 +297,8 @@ class Family:
                 if not cands or "?" in cands:
                     return None
                 return [(x, fn.attr) for x in sorted(cands)]
+            if fn.attr in ("unpack", "unpack_from", "iter_unpack", "pack", "pack_into") and self.struct_format(key, f, recv) is not None:
+                return "raiser"      # struct.error on a buffer of the wrong size: judged by rule escape/unpack-size
             if fn.attr in HARMLESS_METHODS:
                 return "harmless"
             if fn.attr in METHOD_RAISERS:
@@ -379,8 +424,17 @@ class Sizes:
         e2 = expand(e, self.defs)
         cls, mod, consts = self.cls, self.fam.mod, self.fam.consts
 
+        fam, key, f = self.fam, self.key, self.f
+
         class T(ast.NodeTransformer):
             def visit_Attribute(self, node):
+                if node.attr in ("size", "format"):        # <struct.Struct object>.size
+                    fmt = fam.struct_format(key, f, node.value)
+                    if isinstance(fmt, str) and fmt != "computed":
+                        try:
+                            return ast.Constant(value=struct.calcsize(fmt) if node.attr == "size" else fmt)
+                        except struct.error:
+                            pass
                 if cls is not None and is_self_attr(node):
                     v = class_const(mod, cls, node.attr, consts)
                     if v is not None:
@@ -404,8 +458,14 @@ class Sizes:
             return "var"
         if isinstance(e, ast.Constant) and isinstance(e.value, bytes):
             return len(e.value)
+        if isinstance(e, ast.Call) and isinstance(e.func, ast.Attribute) and e.func.attr == "read" and len(e.args) == 1 and not e.keywords:
+            # file.read(n) returns AT MOST n bytes: fewer at the end of the message, without raising
+            v = self.ceval(e.args[0])
+            return ("atmost", v if isinstance(v, int) and not isinstance(v, bool) else None, e)
         if isinstance(e, ast.BinOp) and isinstance(e.op, ast.Add):
             a, b = self.size(e.left), self.size(e.right)
+            if isinstance(a, tuple) or isinstance(b, tuple):
+                return "var"
             if isinstance(a, int) and isinstance(b, int):
                 return a + b
             if a is None or b is None:
@@ -740,6 +800,56 @@ def _percent_count(fmt: str) -> Optional[int]:
     return n
 
 
+def _unpack_call(n, fam: "Family", key, f, sz):
+    """A call that unpacks bytes with a struct format -> ("exact", format expr | None, data expr, format of the Struct object | None) for
+    struct.unpack(fmt, data) / <Struct>.unpack(data);  ("from", ...) for unpack_from;  None for anything else."""
+    if not isinstance(n, ast.Call):
+        return None
+    nm = call_name(n)
+    if nm in ("struct.unpack", "unpack"):
+        if len(n.args) != 2 or n.keywords:
+            _fail(f"{fam.qual(key)}: unpack() call shape not recognised: {src(n)}")
+        return ("exact", n.args[0], n.args[1], None)
+    if nm in ("struct.unpack_from", "unpack_from"):
+        return ("from", None, None, None)
+    if isinstance(n.func, ast.Attribute) and n.func.attr in ("unpack", "unpack_from"):
+        fmt = fam.struct_format(key, f, n.func.value)
+        if fmt is None:
+            return None
+        if n.func.attr == "unpack_from":
+            return ("from", None, None, fmt)
+        if len(n.args) != 1 or n.keywords:
+            _fail(f"{fam.qual(key)}: Struct.unpack() call shape not recognised: {src(n)}")
+        return ("exact", None, n.args[0], fmt)
+    return None
+
+
+def _length_tested(g, ids, name: str, need: int, sz) -> bool:
+    """Every path to `ids` passes a test establishing len(<name>) == need (or >= need): `len(b) < need` false, `len(b) == need` true, ..."""
+    def fact(test, lab):
+        flip = lab == "F"
+        while isinstance(test, ast.UnaryOp) and isinstance(test.op, ast.Not):
+            test, flip = test.operand, not flip
+        if not (isinstance(test, ast.Compare) and len(test.ops) == 1):
+            return False
+        a, op, b = test.left, type(test.ops[0]), test.comparators[0]
+
+        def is_len(x):
+            return isinstance(x, ast.Call) and call_name(x) == "len" and len(x.args) == 1 and isinstance(x.args[0], ast.Name) and x.args[0].id == name
+        if is_len(b) and not is_len(a):
+            a, b = b, a
+            op = {ast.Lt: ast.Gt, ast.Gt: ast.Lt, ast.LtE: ast.GtE, ast.GtE: ast.LtE}.get(op, op)
+        if not is_len(a):
+            return False
+        v = sz.ceval(b)
+        if not isinstance(v, int) or isinstance(v, bool):
+            return False
+        if not flip:
+            return (op is ast.Eq and v == need) or (op is ast.GtE and v >= need) or (op is ast.Gt and v >= need - 1)
+        return (op is ast.NotEq and v == need) or (op is ast.Lt and v >= need) or (op is ast.LtE and v >= need - 1)
+    return bool(ids) and all(any(fact(g.node(t).ast, lab) for t, lab in g.edge_guards(i)) for i in ids)
+
+
 def _none_test(test, name):
     """True if `test` holds exactly when `name is None`, False if exactly when it is not None, else None (either polarity, `not` peeled)."""
     flip = False
@@ -793,24 +903,38 @@ def check_escape(ctx, fam: Family):
                         continue
                     ctx.violation("escape/explicit-raise", ctx.construct(q, n), f"decoding can raise {name}, which is neither EOFError nor ValueError: the UDP/TCP protocols do not treat it as a malformed packet")
                 # ---- struct.unpack size agreement
-                if isinstance(n, ast.Call) and call_name(n) in ("struct.unpack", "unpack"):
+                uk = _unpack_call(n, fam, key, f, sz)
+                if uk is not None and uk[0] == "from":
+                    # unpack_from(buffer, offset): needs offset + calcsize(fmt) bytes in a buffer that comes from the message
+                    n_unpack += 1
+                    ok = _handled(g, g.ids_of(n), "struct.error")
+                    ctx.check(ok, "escape/unpack-size", ctx.construct(q, n), f"`{src(n)}` needs a buffer that is long enough for the format at that offset; nothing establishes its length: struct.error escapes")
+                elif uk is not None:
                     n_unpack += 1
                     cons = ctx.construct(q, n)
-                    if len(n.args) != 2:
-                        _fail(f"{q}: unpack() call shape not recognised: {src(n)}")
-                    fmt = sz.ceval(n.args[0])
+                    fmt_arg, data_arg, fmt_obj = uk[1], uk[2], uk[3]
+                    if fmt_arg is None and fmt_obj == "computed":
+                        _fail(f"{q}: the format of the Struct object in {src(n)} is not a constant")
+                    fmt = fmt_obj if fmt_arg is None else sz.ceval(fmt_arg)
                     if not isinstance(fmt, str) and key[0] == "" and key[1] in fam.unpack_helpers():
                         ctx.ok("escape/unpack-size", cons, "reads exactly struct.calcsize(fmt) bytes for the format it unpacks (checked at every call site: the format is constant there)")
                         continue
                     if not isinstance(fmt, str):
                         check_computed_format(ctx, fam, q, g, sz, n, "struct.unpack")
                         continue
-                    size = sz.size(n.args[1])
+                    size = sz.size(data_arg)
                     need = struct.calcsize(fmt)
                     if size is None:
                         _fail(f"{q}: cannot determine the length of the unpacked bytes in {src(n)}")
                     if _handled(g, g.ids_of(n), "struct.error"):
                         ctx.ok("escape/unpack-size", cons, "struct.error handled locally")
+                    elif isinstance(size, tuple):
+                        # bytes from file.read(n): length-checked only by an explicit test on the way to the unpack
+                        ok = size[1] == need and isinstance(data_arg, ast.Name) and _length_tested(g, g.ids_of(n), data_arg.id, need, sz)
+                        ctx.check(ok, "escape/unpack-size", cons,
+                                  f"struct.unpack({fmt!r}) needs exactly {need} bytes but is given the result of `{src(size[2])}`: read() returns fewer bytes at the end of a message "
+                                  "without raising, so a message that ends inside this field raises struct.error (which no protocol treats as a malformed packet) instead of EOFError; "
+                                  "readPrecisely() or an explicit length test is required")
                     elif size == "var":
                         ctx.violation("escape/unpack-size", cons, f"struct.unpack({fmt!r}) needs exactly {need} bytes but is given a byte string whose length depends on the message: struct.error escapes")
                     else:
